@@ -702,8 +702,7 @@ static bool op(const std::vector<std::string> &w) {
         raw_fd = socket(AF_UNIX, SOCK_STREAM | SOCK_NONBLOCK, 0);
         struct sockaddr_un a; socklen_t len = addr.toSockAddr(a);
         ret = ::connect(raw_fd, (struct sockaddr *)&a, len) == 0;
-        if (!ret) { close(raw_fd); raw_fd = -1; }
-        raw_eof = false;
+        if (!ret) { close(raw_fd); raw_fd = -1; } else raw_eof = false;
     }
     else if (o == "nrsend" && w.size() == 2 && raw_fd >= 0 && vh::unhex(w[1], d) && d.size() <= 1024 && !d.empty())
         ret = real_write()(raw_fd, d.data(), d.size()) == (ssize_t)d.size();
